@@ -124,6 +124,11 @@ func (x *Exec) invoke(s *State, cc *ssa.CallCommon, recv Val, args []Val, instr 
 		}
 	}
 	name := ifaceKey + "." + mname
+	if x.relMode && name == "limit.Logger.IsDebugEnabled" {
+		x.note("relational obligations are discharged for a logger with IsDebugEnabled() == false (the default NoopLimitLogger); the logging branches only add Debugf calls")
+		setRes(boolVal("false"))
+		return false
+	}
 	setRes(x.callUnknown(s, name, name, &recv, nil, cc.Signature(), args))
 	return false
 }
@@ -344,7 +349,7 @@ func (x *Exec) callStatic(s *State, fn *ssa.Function, args []Val, env string, in
 		return false
 	}
 	spec := x.P.specs.Funcs[name]
-	if spec != nil && !spec.Inline && fn != x.fn {
+	if spec != nil && !spec.Inline && fn != x.fn && !(x.relMode && contains(x.spec.RelInline, name)) {
 		vars := map[string]Val{}
 		for i, p := range fn.Params {
 			if i < len(args) {
